@@ -38,6 +38,18 @@ GFA1 documents get two more kinds of content (drawn after everything above, so t
     the path keep their overlaps (outward-dovetails-wrong), and a second chain further along the same path is still
     spelled with the overlap its join had (merged-sequence-wrong / merged-length-wrong).
 
+Both versions, 20% of the documents, drawn last of all (so every kind above is kept, 80% of them unchanged):
+  * _end_like_name - one member Y of a chain or cycle is renamed (S line and every L/C/P, E/G/F/O/U reference) to the
+    WRITTEN FORM OF A SEGMENT END of another segment X of the document: `XL` or `XR` (legal names: chr2 / chr2L /
+    chr2R), where X is the first or last member of a chain and the letter names its outer end - the end on which
+    that chain stops - and Y is preferably declared after another member of X's chain (so that X's chain is walked
+    to its end before Y's chain is looked at); 1 of 5 renamings take any end of any segment and any other segment.
+    The property speaks of the dovetails only: linear_paths()/linear_path(s) must still return exactly the maximal
+    chains of the text, names apart (linear-paths-missing / -unexpected, linear-path-of-segment-wrong), the merged
+    segment is named by the "_"-joined (new) names, and the merge is idempotent (not-idempotent-paths / -text).
+    This is the situation in which a segment NAME and the string form of a SegmentEnd (which gfapy compares and
+    hashes as equal: SegmentEnd("t","R") == "tR") can be mistaken for one another in the library's bookkeeping.
+
 Signatures of merge-phase failures carry a domain prefix (vlevel3- / mixedseq- / gfa2-, see oracle()) so that the
 open roots seen on the tree (merge at validation level 3; chains mixing `*` and sequence members; GFA2 edge
 coordinates never recomputed for the merged segment) do not share signatures with plain GFA1 regressions.  When an
@@ -71,7 +83,10 @@ RULE = ("random assembly-like graphs (_graphgen.gen_graph: chains 2-8 with all o
         "exactly as long as the shorter joined segment (a member entirely covered by its overlap); 40% of the GFA1 "
         "documents get 1-3 P lines that are random walks (2-8 oriented segments, both strands, repeats, across "
         "junctions) over the L lines, stating their overlaps or `*`: paths through a chain and beyond it, whose "
-        "other links must come out of the merge unchanged. Non-trivial: the text has at "
+        "other links must come out of the merge unchanged; in 20% of all documents (both versions) one member of a "
+        "chain or cycle is renamed, with all its references, to the written form XL / XR of an end of another segment "
+        "X of the document (mostly the outer end of the first/last member of a chain): the chains, the per-segment "
+        "linear_path and the idempotence of the merge must not depend on the names. Non-trivial: the text has at "
         "least one chain or cycle of usable joins; distinct by case hash.")
 CASE_TIMEOUT = 60
 
@@ -112,6 +127,9 @@ def gen_case(rng, tier, i):
             c["lines"] = _covered_members(rng, c["lines"])
         if rng.random() < 0.4:
             c["lines"] = _walk_paths(rng, c["lines"])
+    # (again the last draw: every kind of document above is generated as before, 20% of them with one name changed)
+    if rng.random() < 0.2:
+        c["lines"] = _end_like_name(rng, c["lines"], c["version"])
     return c
 
 
@@ -286,6 +304,71 @@ def _walk_paths(rng, lines):
     return out + new
 
 
+def _rename_segment(lines, version, old, new):
+    """the document with segment `old` called `new` in its S line and in every line that refers to it (L/C/P in
+    GFA1; E/G/F/O/U in GFA2); field positions per record type, nothing else is touched"""
+    def ref(x):                    # a reference with an orientation sign
+        return new + x[-1] if x[:-1] == old else x
+    out = []
+    for l in lines:
+        f = l.split("\t")
+        rt = f[0]
+        if rt == "S":
+            if f[1] == old:
+                f[1] = new
+        elif rt in ("L", "C") and version == "gfa1":
+            for i in (1, 3):
+                if f[i] == old:
+                    f[i] = new
+        elif rt == "P" and version == "gfa1":
+            f[2] = ",".join(ref(x) for x in f[2].split(","))
+        elif rt in ("E", "G"):
+            f[2], f[3] = ref(f[2]), ref(f[3])
+        elif rt == "F":
+            if f[1] == old:
+                f[1] = new
+        elif rt == "O":
+            f[2] = " ".join(ref(x) for x in f[2].split(" "))
+        elif rt == "U":
+            f[2] = " ".join(new if x == old else x for x in f[2].split(" "))
+        out.append("\t".join(f))
+    return out
+
+
+def _end_like_name(rng, lines, version):
+    """One segment Y of the document is renamed to the written form of a SEGMENT END of another segment X: `XL` or
+    `XR` (legal segment names in both versions; think of chr2 / chr2L / chr2R).  "Exactly the maximal chains" is a
+    statement about the dovetails, whatever the segments are called, so nothing in the expectation changes but the
+    names.  X is the first or last member of a chain and the letter is that of its OUTER end (the end on which the
+    chain stops: a dead end or a junction), Y is another member of a chain or of a cycle (the same chain or another
+    one, preferably - 3 of 4 - one whose S line comes after the S line of some other member of X's chain, so that
+    the chain of X is walked to its end before Y is looked at); 1 of 5: any end of any segment for X, any other
+    segment for Y.  Every reference to Y (L/C/P, E/G/F/O/U) is rewritten; the document is returned unchanged when
+    it has no chain or the new name is taken."""
+    d = G.parse(lines, version)
+    if len(d.lines) != len(lines) or d.dup_names:
+        return lines
+    paths, cycles, _ = G.chains(d)
+    members = [s for p in paths + cycles for s, _ in p]
+    ids = set(d.segs) | set(r_["name"] for r_ in d.recs if r_["name"])
+    if rng.random() < 0.2 or not paths:
+        if len(d.seg_order) < 2:
+            return lines
+        x, end = rng.choice(d.seg_order), rng.choice("LR")
+        cand = [s for s in d.seg_order if s != x]
+    else:
+        p = rng.choice(paths)
+        x, end = rng.choice([(p[0][0], G.OTHER_END[p[0][1]]), (p[-1][0], p[-1][1])])
+        cand = [s for s in members if s != x]
+        if rng.random() < 0.75:
+            first = min(d.segs[s]["idx"] for s, _ in p if s != x)
+            later = [s for s in cand if d.segs[s]["idx"] > first]
+            cand = later or cand
+    if not cand or x + end in ids:
+        return lines
+    return _rename_segment(lines, version, rng.choice(sorted(set(cand))), x + end)
+
+
 def _doc(case):
     return G.parse(case["lines"], case["version"])
 
@@ -299,6 +382,10 @@ def tags(case):
     d = _doc(case)
     t = G.features(d)
     paths, cycles, joins = G.chains(d)
+    if any(s[-1] in "LR" and s[:-1] in d.segs for s in d.segs):
+        t.append("end-like-name")
+        if any(s[-1] in "LR" and s[:-1] in d.segs for p in paths + cycles for s, _ in p):
+            t.append("end-like-name-in-chain")
     if case["version"] == "gfa1":
         if any(e["cut"] is not None and e["cut"] in (d.segs[e["a"]]["len"], d.segs[e["b"]]["len"]) for e in joins.values()):
             t.append("covered-member")
